@@ -148,12 +148,21 @@ func runC03(c *Ctx) {
 		c.guarded(fn, equalIs("q.StopHash vs r.StopHash", find(fn, binops(eqOps, loadsField(shQ), loadsField(shR))), true), 1, "headerChan send / positive progress", effects, 2, gDominate)
 		sh := c.field("neutrino", "checkpointedCFHeadersQuery", "stopHashes")
 		c.guarded(fn, okIs("c.stopHashes[r.StopHash]", find(fn, lookupsOn(loadsField(sh)))), 1, "headerChan send / positive progress", effects, 2, gDominate)
-		vc := c.funcObj("neutrino", "verifyCheckpoint")
-		g := boolIs("verifyCheckpoint(prev,next,r)", find(fn, callTo(vc)), 0, true)
-		c.guarded(fn, g, 1, "headerChan send / positive progress", effects, 2, gDominate)
 		want := c.banReasonConst("InvalidFilterHeaderCheckpoint")
 		ban := func(in ssa.Instruction) bool { return c.banCalls()(in) && banReason(in) == want }
-		c.mustFollow(fn, "verifyCheckpoint=false", c.failEdges(g), ban, "BanPeer(peer, InvalidFilterHeaderCheckpoint)", nil, 1)
+		if vc := c.P.FuncObj("neutrino", "verifyCheckpoint"); vc != nil {
+			g := boolIs("verifyCheckpoint(prev,next,r)", find(fn, callTo(vc)), 0, true)
+			c.guarded(fn, g, 1, "headerChan send / positive progress", effects, 2, gDominate)
+			c.mustFollow(fn, "verifyCheckpoint=false", c.failEdges(g), ban, "BanPeer(peer, InvalidFilterHeaderCheckpoint)", nil, 1)
+		} else {
+			// the verification is written out in the handler: both of its
+			// comparisons guard the delivery, a failed one leads to the ban
+			gp, gf := c.checkpointCmps(fn)
+			c.guarded(fn, gp, 1, "headerChan send / positive progress", effects, 2, gDominate)
+			c.guarded(fn, gf, 1, "headerChan send / positive progress", effects, 2, gDominate)
+			c.mustFollow(fn, "response does not start at the previous checkpoint", c.failEdges(gp), ban, "BanPeer(peer, InvalidFilterHeaderCheckpoint)", nil, 1)
+			c.mustFollow(fn, "folded header chain does not end at the next checkpoint", c.failEdges(gf), ban, "BanPeer(peer, InvalidFilterHeaderCheckpoint)", nil, 1)
+		}
 		// the message delivered is the verified response
 		okMsg := true
 		for _, e := range find(fn, sendOn(loadsField(hc))) {
@@ -169,8 +178,26 @@ func runC03(c *Ctx) {
 	})
 
 	c.rule("C03.G3", "verifyCheckpoint returns true only if *prevCheckpoint == cfheaders.PrevFilterHeader and the folded DoubleHashH chain equals *nextCheckpoint", func() {
-		fn := c.fn("neutrino.verifyCheckpoint")
 		dh := c.funcObj(pChainhash, "DoubleHashH")
+		if c.P.Func("neutrino.verifyCheckpoint") == nil {
+			// folded into the response handler: the two comparisons exist (their
+			// guarding role is C03.G2) and the fold consumes the right input
+			fn := c.fn(fnCFHResp)
+			gp, gf := c.checkpointCmps(fn)
+			c.verdict(len(gp.sites) >= 1 && len(gf.sites) >= 1, c.nm(fn)+" | compares *prevCheckpoint with PrevFilterHeader and the DoubleHashH fold with *nextCheckpoint", c.P.Pos(fn.Pos()), "both comparisons present", "the response handler no longer compares the response's PrevFilterHeader with the previous checkpoint and the folded header chain with the next checkpoint")
+			fHashes := c.field(pWire, "MsgCFHeaders", "FilterHashes")
+			dhs := find(fn, callTo(dh))
+			okv := len(dhs) >= 1
+			for _, d := range dhs {
+				a := ir.CallOf(d).Args[0]
+				if !loadsField(fHashes)(a) || !loadsField(prevFH())(a) {
+					okv = false
+				}
+			}
+			c.verdict(okv, c.nm(fn)+" | fold input = FilterHashes[i] || running header seeded by PrevFilterHeader", c.P.Pos(fn.Pos()), "fold consumes cfheaders.FilterHashes seeded with PrevFilterHeader", "the DoubleHashH fold is not over cfheaders.FilterHashes seeded with PrevFilterHeader", c.ats(dhs)...)
+			return
+		}
+		fn := c.fn("neutrino.verifyCheckpoint")
 		var mayTrue []ssa.Instruction
 		okShape := true
 		var detail string
@@ -475,7 +502,11 @@ func runC03(c *Ctx) {
 	c.rule("C03.V2", "the whole cfheaders message is hashed: the header-chain loops of verifyCheckpoint and writeCFHeadersMsg visit every entry of FilterHashes (indices 0..len-1, no early exit), each iteration folding the entry into the running header with DoubleHashH; writeCFHeadersMsg's notification loop visits every matching block header", func() {
 		dh := c.funcObj(pChainhash, "DoubleHashH")
 		fh := c.field(pWire, "MsgCFHeaders", "FilterHashes")
-		for _, name := range []string{"neutrino.verifyCheckpoint", "(*neutrino.blockManager).writeCFHeadersMsg"} {
+		vcName := "neutrino.verifyCheckpoint"
+		if c.P.Func(vcName) == nil {
+			vcName = fnCFHResp // folded into the response handler
+		}
+		for _, name := range []string{vcName, "(*neutrino.blockManager).writeCFHeadersMsg"} {
 			fn := c.fn(name)
 			calls := find(fn, callTo(dh))
 			if len(calls) != 1 || ir.LoopHeaderOf(calls[0].Block()) == nil {
@@ -757,4 +788,18 @@ func (c *Ctx) filterRollbackFirst() {
 		}
 	}
 	c.verdict(okArg, c.nm(fn)+" | filter store new tip = PrevBlock of the header being removed", c.P.Pos(fn.Pos()), "RollbackLastBlock(&header.PrevBlock)", "filter store is rolled back to something other than the removed header's PrevBlock", c.ats(fr)...)
+}
+
+// checkpointCmps: the two comparisons of a checkpoint verification written out
+// in fn: response.PrevFilterHeader against a checkpoint, and the DoubleHashH
+// fold against a checkpoint.
+func (c *Ctx) checkpointCmps(fn *ssa.Function) (prev, fold guard) {
+	prevFH := c.field(pWire, "MsgCFHeaders", "PrevFilterHeader")
+	dh := c.funcObj(pChainhash, "DoubleHashH")
+	isFold := func(v ssa.Value) bool { return ir.DerivesFrom(v, valIsCallTo(dh)) }
+	any := func(ssa.Value) bool { return true }
+	notFold := func(v ssa.Value) bool { return !isFold(v) }
+	prev = equalIs("*prevCheckpoint vs response.PrevFilterHeader", find(fn, binops(eqOps, func(v ssa.Value) bool { return loadsField(prevFH)(v) && !isFold(v) }, notFold)), true)
+	fold = equalIs("folded header chain vs *nextCheckpoint", find(fn, binops(eqOps, isFold, any)), true)
+	return
 }
